@@ -5,7 +5,6 @@ import (
 	"go/ast"
 	"go/token"
 	"go/types"
-	"os"
 	"regexp"
 	"sort"
 	"strings"
@@ -559,13 +558,6 @@ func c19Siblings(r *core.Run, p *core.Prog) {
 	for k := range s6 {
 		if !s4[k] {
 			diff = "IPv6 only: " + k
-			if os.Getenv("GPV_DEBUG") != "" {
-				for k4 := range s4 {
-					if strings.Contains(k4, "TCP:true") {
-						fmt.Println("V4:", k4)
-					}
-				}
-			}
 		}
 	}
 	r.Stat("paths_enumerated", len(s4)+len(s6))
